@@ -65,7 +65,8 @@ let run_line (line : string) : string =
           | "autoprobe" -> Some SAutoprobe
           | "set_fragsize" -> Some SSetFragsize
           | "login" -> Some SLogin
-          | "full" -> if ia land 1 = 0 then Some (SFull ((ia lsr 1) land 1 = 1, n_of_int 1000)) else None
+          | "full" -> Some (SFull (ia land 1 = 1, (ia lsr 1) land 1 = 1, n_of_int 1000))
+          | "rawudp" -> Some (SRawUdp (z_of_int (int_of_string seed)))
           | _ -> None in
         (match st with
          | None -> "SKIP"
@@ -73,7 +74,8 @@ let run_line (line : string) : string =
              let qt = int_of_string qtype in
              let qt = if qt = 0 then int_of_n t_UNSET else qt in
              let s0 = hs_init (n_of_int 1000) (n_of_int qt) (z_of_int (schar (int_of_string uid)))
-                        (z_of_int (int_of_string seed)) (int_of_string lzy <> 0) (n_of_int ((int_of_string denc) land 255)) [] in
+                        (z_of_int (int_of_string seed)) (int_of_string lzy <> 0) (n_of_int ((int_of_string denc) land 255)) []
+                        (L.map n_of_int ([115; 101; 115; 97; 109; 101] @ L.init 26 (fun _ -> 0))) in
              let ((rv, s1), rest) = run_step st s0 items in
              let up = match int_of_n s1.h_up with 0 -> "Base32" | 1 -> "Base64" | 2 -> "Base64u" | _ -> "Base128" in
              let cmd_str (c : n list) = String.init (L.length c) (fun i -> Char.chr (int_of_n (L.nth c i))) in
@@ -82,9 +84,9 @@ let run_line (line : string) : string =
               | Some rv ->
                   (* handshake_version hands the seed back through a pointer the harness prints; client_handshake keeps it local *)
                   let seed_out = (match st with SFull _ -> int_of_string seed | _ -> int_of_z s1.h_seed) in
-                  Printf.sprintf "rv=%d uid=%d seed=%d qtype=%d up=%s down=%d lazy=%d st=%d conn=1 edns=%d q=%d left=%d tun=0 sys=[%s]"
+                  Printf.sprintf "rv=%d uid=%d seed=%d qtype=%d up=%s down=%d lazy=%d st=%d conn=%d edns=%d q=%d left=%d tun=0 sys=[%s]"
                     (int_of_z rv) (int_of_z s1.h_uid) seed_out (int_of_n s1.h_qtype) up (schar (int_of_n s1.h_down))
-                    (if s1.h_lazy then 1 else 0) (int_of_n s1.h_st) (if s1.h_edns then 1 else 0) (int_of_n s1.h_q) (L.length rest)
+                    (if s1.h_lazy then 1 else 0) (int_of_n s1.h_st) (if s1.h_dns then 1 else 0) (if s1.h_edns then 1 else 0) (int_of_n s1.h_q) (L.length rest)
                     (String.concat "|" (L.map cmd_str s1.h_sys))))
     | _ -> "UNKNOWN-CASE"
   end
